@@ -412,8 +412,13 @@ def run(ctx: Ctx) -> None:
 
 def _selftest(ctx: Ctx, s3: List[Dict[str, Any]], fl: List[Dict[str, Any]], flags: Dict[str, bool]) -> None:
     """The trace specifications must reject corrupted traces (binding anti-vacuity)."""
-    good = next(t for t in s3 if sum(1 for e in t["events"] if e["k"] == "Put" and e["status"] == "412") >= 1 and t.get("_accepted")
-                and any(e["k"] == "IsHeldRet" for e in t["events"]))
+    good = next((t for t in s3 if sum(1 for e in t["events"] if e["k"] == "Put" and e["status"] == "412") >= 1 and t.get("_accepted")
+                 and any(e["k"] == "IsHeldRet" for e in t["events"])), None)
+    gf = next((t for t in fl if any(e["k"] == "Flock" and e["status"] == "EWOULDBLOCK" for e in t["events"]) and t.get("_accepted")), None)
+    if good is None or gf is None:
+        # no accepted execution of the needed shape: the code under test does not conform (reported above), nothing to corrupt
+        ctx.cov["binding_selftest"] = "skipped: no accepted trace of the needed shape (see the reported nonconformance)"
+        return
     bad1 = json.loads(json.dumps(good))
     next(e for e in bad1["events"] if e["k"] == "Put" and e["status"] == "412")["status"] = "ok"          # a refused create reported as success
     bad2 = json.loads(json.dumps(good))
@@ -423,7 +428,6 @@ def _selftest(ctx: Ctx, s3: List[Dict[str, Any]], fl: List[Dict[str, Any]], flag
     v2 = lh.validate_s3([good, bad1], flags, False, ["A", "B", "C"])
     if v.accepted != [True, False, False] or v2.accepted != [True, False]:
         raise MachineryError(f"Trace_S3Lock self-test: accepted={v.accepted}/{v2.accepted}, expected only the untouched trace")
-    gf = next(t for t in fl if any(e["k"] == "Flock" and e["status"] == "EWOULDBLOCK" for e in t["events"]) and t.get("_accepted"))
     badf = json.loads(json.dumps(gf))
     next(e for e in badf["events"] if e["k"] == "Flock" and e["status"] == "EWOULDBLOCK")["status"] = "ok"
     badg = json.loads(json.dumps(gf))
